@@ -397,93 +397,290 @@ pub fn c06_andor_obj1() {
     user_and_or(10);
 }
 
-fn user_quant(k: u8) {
-    // literal one-element collection, literal predicate v: all = some = truthy(v); none = !some; filter keeps iff truthy(v)
+/// literal one-element collection, literal predicate v: all = some = truthy(v); none = !some; filter keeps iff truthy(v)
+fn user_quant(k: u8, which: u8) {
     let v = corner(k);
     let coll = Value::Array(vec![num(5)]);
     let data = Value::Null;
     let args: Vec<&Value> = vec![&coll, &v];
-    let ra = array::all(&data, &args);
-    let rs = array::some(&data, &args);
-    let rn = array::none(&data, &args);
-    let rf = array::filter(&data, &args);
-    vshow!("all/some/none/filter([5], {:?}) = {:?} {:?} {:?} {:?}", v, ra, rs, rn, rf);
     let t = jl_truthy(&v);
-    match (&ra, &rs, &rn, &rf) {
-        (Ok(Value::Bool(a)), Ok(Value::Bool(s)), Ok(Value::Bool(n)), Ok(Value::Array(f))) => {
-            assert!(*a == t, "C06: `all` does not follow the truthiness table");
-            assert!(*s == t, "C06: `some` does not follow the truthiness table");
-            assert!(*n == !t, "C06: `none` does not follow the truthiness table");
-            assert!(f.len() == if t { 1 } else { 0 }, "C06: `filter` does not follow the truthiness table");
-        }
+    let r = match which {
+        0 => array::all(&data, &args),
+        1 => array::some(&data, &args),
+        2 => array::none(&data, &args),
+        _ => array::filter(&data, &args),
+    };
+    vshow!("quantifier {} ([5], {:?}) = {:?}", which, v, r);
+    match (&r, which) {
+        (Ok(Value::Bool(a)), 0) => assert!(*a == t, "C06: `all` does not follow the truthiness table"),
+        (Ok(Value::Bool(a)), 1) => assert!(*a == t, "C06: `some` does not follow the truthiness table"),
+        (Ok(Value::Bool(a)), 2) => assert!(*a == !t, "C06: `none` does not follow the truthiness table"),
+        (Ok(Value::Array(f)), 3) => assert!(f.len() == if t { 1 } else { 0 }, "C06: `filter` does not follow the truthiness table"),
         _ => assert!(false, "C06: quantifier / filter failed on literal operands"),
     }
-    std::mem::forget(ra);
-    std::mem::forget(rs);
-    std::mem::forget(rn);
-    std::mem::forget(rf);
+    std::mem::forget(r);
     std::mem::forget(v);
     std::mem::forget(coll);
 }
 
-//@ harness: c06_quant_bool tier=thorough timeout=1800 kind=main mem=20
-//@ encodes: op::array::all, op::array::some, op::array::none, op::array::filter, op::logic::truthy_from_evaluated
-//@ bound: collection [5] (literal), literal predicate v = Bool(any): all = some = truthy(v), none = !some, filter keeps the element iff truthy(v)
-//@ cuts: maps evaluate
+//@ harness: c06_all_bool tier=thorough timeout=900 kind=main mem=10
+//@ encodes: op::array::all, op::logic::truthy_from_evaluated, op::logic::truthy (Parsed::from_value replaced by its recording twin: literals parse to Raw, C02; Value::clone by the bounded model)
+//@ bound: collection [5] (literal), literal predicate v = Bool(any): the operator's decision equals the truthiness table
 #[cfg_attr(kani, kani::proof)]
 #[cfg_attr(kani, kani::unwind(8))]
 #[cfg_attr(kani, kani::stub(std::fmt::format, stub_format))]
+#[cfg_attr(kani, kani::stub(crate::value::Parsed::from_value, crate::value::verif_c05_value::RecParsed::from_value))]
+#[cfg_attr(kani, kani::stub(<serde_json::Value as std::clone::Clone>::clone, value_clone_model))]
 #[cfg_attr(verif_replay, test)]
-pub fn c06_quant_bool() {
-    user_quant(1);
+pub fn c06_all_bool() {
+    user_quant(1, 0);
 }
 
-//@ harness: c06_quant_f64 tier=thorough timeout=1800 kind=main mem=20
-//@ encodes: op::array::all, op::array::some, op::array::none, op::array::filter, op::logic::truthy_from_evaluated
-//@ bound: collection [5] (literal), literal predicate v = Number(any finite f64, incl. -0.0): all = some = truthy(v), none = !some, filter keeps the element iff truthy(v)
-//@ cuts: maps evaluate
+//@ harness: c06_some_bool tier=thorough timeout=900 kind=main mem=10
+//@ encodes: op::array::some, op::logic::truthy_from_evaluated, op::logic::truthy (Parsed::from_value replaced by its recording twin: literals parse to Raw, C02; Value::clone by the bounded model)
+//@ bound: collection [5] (literal), literal predicate v = Bool(any): the operator's decision equals the truthiness table
 #[cfg_attr(kani, kani::proof)]
 #[cfg_attr(kani, kani::unwind(8))]
 #[cfg_attr(kani, kani::stub(std::fmt::format, stub_format))]
+#[cfg_attr(kani, kani::stub(crate::value::Parsed::from_value, crate::value::verif_c05_value::RecParsed::from_value))]
+#[cfg_attr(kani, kani::stub(<serde_json::Value as std::clone::Clone>::clone, value_clone_model))]
 #[cfg_attr(verif_replay, test)]
-pub fn c06_quant_f64() {
-    user_quant(4);
+pub fn c06_some_bool() {
+    user_quant(1, 1);
 }
 
-//@ harness: c06_quant_str tier=thorough timeout=1800 kind=main mem=20
-//@ encodes: op::array::all, op::array::some, op::array::none, op::array::filter, op::logic::truthy_from_evaluated
-//@ bound: collection [5] (literal), literal predicate v = String(<= 2 symbolic chars, incl. "" and "0"): all = some = truthy(v), none = !some, filter keeps the element iff truthy(v)
-//@ cuts: maps evaluate
+//@ harness: c06_none_bool tier=thorough timeout=900 kind=main mem=10
+//@ encodes: op::array::none, op::logic::truthy_from_evaluated, op::logic::truthy (Parsed::from_value replaced by its recording twin: literals parse to Raw, C02; Value::clone by the bounded model)
+//@ bound: collection [5] (literal), literal predicate v = Bool(any): the operator's decision equals the truthiness table
 #[cfg_attr(kani, kani::proof)]
 #[cfg_attr(kani, kani::unwind(8))]
 #[cfg_attr(kani, kani::stub(std::fmt::format, stub_format))]
+#[cfg_attr(kani, kani::stub(crate::value::Parsed::from_value, crate::value::verif_c05_value::RecParsed::from_value))]
+#[cfg_attr(kani, kani::stub(<serde_json::Value as std::clone::Clone>::clone, value_clone_model))]
 #[cfg_attr(verif_replay, test)]
-pub fn c06_quant_str() {
-    user_quant(5);
+pub fn c06_none_bool() {
+    user_quant(1, 2);
 }
 
-//@ harness: c06_quant_emptyarr tier=thorough timeout=1800 kind=main mem=20
-//@ encodes: op::array::all, op::array::some, op::array::none, op::array::filter, op::logic::truthy_from_evaluated
-//@ bound: collection [5] (literal), literal predicate v = []: all = some = truthy(v), none = !some, filter keeps the element iff truthy(v)
-//@ cuts: maps evaluate
+//@ harness: c06_filter_bool tier=quick timeout=900 kind=main mem=10
+//@ encodes: op::array::filter, op::logic::truthy_from_evaluated, op::logic::truthy (Parsed::from_value replaced by its recording twin: literals parse to Raw, C02; Value::clone by the bounded model)
+//@ bound: collection [5] (literal), literal predicate v = Bool(any): the operator's decision equals the truthiness table
 #[cfg_attr(kani, kani::proof)]
 #[cfg_attr(kani, kani::unwind(8))]
 #[cfg_attr(kani, kani::stub(std::fmt::format, stub_format))]
+#[cfg_attr(kani, kani::stub(crate::value::Parsed::from_value, crate::value::verif_c05_value::RecParsed::from_value))]
+#[cfg_attr(kani, kani::stub(<serde_json::Value as std::clone::Clone>::clone, value_clone_model))]
 #[cfg_attr(verif_replay, test)]
-pub fn c06_quant_emptyarr() {
-    user_quant(6);
+pub fn c06_filter_bool() {
+    user_quant(1, 3);
 }
 
-//@ harness: c06_quant_obj tier=thorough timeout=1800 kind=main mem=20
-//@ encodes: op::array::all, op::array::some, op::array::none, op::array::filter, op::logic::truthy_from_evaluated
-//@ bound: collection [5] (literal), literal predicate v = {}: all = some = truthy(v), none = !some, filter keeps the element iff truthy(v)
-//@ cuts: evaluate
+//@ harness: c06_all_f64 tier=quick timeout=900 kind=main mem=10
+//@ encodes: op::array::all, op::logic::truthy_from_evaluated, op::logic::truthy (Parsed::from_value replaced by its recording twin: literals parse to Raw, C02; Value::clone by the bounded model)
+//@ bound: collection [5] (literal), literal predicate v = Number(any finite f64, incl. -0.0): the operator's decision equals the truthiness table
 #[cfg_attr(kani, kani::proof)]
 #[cfg_attr(kani, kani::unwind(8))]
 #[cfg_attr(kani, kani::stub(std::fmt::format, stub_format))]
+#[cfg_attr(kani, kani::stub(crate::value::Parsed::from_value, crate::value::verif_c05_value::RecParsed::from_value))]
+#[cfg_attr(kani, kani::stub(<serde_json::Value as std::clone::Clone>::clone, value_clone_model))]
 #[cfg_attr(verif_replay, test)]
-pub fn c06_quant_obj() {
-    user_quant(9);
+pub fn c06_all_f64() {
+    user_quant(4, 0);
+}
+
+//@ harness: c06_some_f64 tier=thorough timeout=900 kind=main mem=10
+//@ encodes: op::array::some, op::logic::truthy_from_evaluated, op::logic::truthy (Parsed::from_value replaced by its recording twin: literals parse to Raw, C02; Value::clone by the bounded model)
+//@ bound: collection [5] (literal), literal predicate v = Number(any finite f64, incl. -0.0): the operator's decision equals the truthiness table
+#[cfg_attr(kani, kani::proof)]
+#[cfg_attr(kani, kani::unwind(8))]
+#[cfg_attr(kani, kani::stub(std::fmt::format, stub_format))]
+#[cfg_attr(kani, kani::stub(crate::value::Parsed::from_value, crate::value::verif_c05_value::RecParsed::from_value))]
+#[cfg_attr(kani, kani::stub(<serde_json::Value as std::clone::Clone>::clone, value_clone_model))]
+#[cfg_attr(verif_replay, test)]
+pub fn c06_some_f64() {
+    user_quant(4, 1);
+}
+
+//@ harness: c06_none_f64 tier=thorough timeout=900 kind=main mem=10
+//@ encodes: op::array::none, op::logic::truthy_from_evaluated, op::logic::truthy (Parsed::from_value replaced by its recording twin: literals parse to Raw, C02; Value::clone by the bounded model)
+//@ bound: collection [5] (literal), literal predicate v = Number(any finite f64, incl. -0.0): the operator's decision equals the truthiness table
+#[cfg_attr(kani, kani::proof)]
+#[cfg_attr(kani, kani::unwind(8))]
+#[cfg_attr(kani, kani::stub(std::fmt::format, stub_format))]
+#[cfg_attr(kani, kani::stub(crate::value::Parsed::from_value, crate::value::verif_c05_value::RecParsed::from_value))]
+#[cfg_attr(kani, kani::stub(<serde_json::Value as std::clone::Clone>::clone, value_clone_model))]
+#[cfg_attr(verif_replay, test)]
+pub fn c06_none_f64() {
+    user_quant(4, 2);
+}
+
+//@ harness: c06_filter_f64 tier=thorough timeout=900 kind=main mem=10
+//@ encodes: op::array::filter, op::logic::truthy_from_evaluated, op::logic::truthy (Parsed::from_value replaced by its recording twin: literals parse to Raw, C02; Value::clone by the bounded model)
+//@ bound: collection [5] (literal), literal predicate v = Number(any finite f64, incl. -0.0): the operator's decision equals the truthiness table
+#[cfg_attr(kani, kani::proof)]
+#[cfg_attr(kani, kani::unwind(8))]
+#[cfg_attr(kani, kani::stub(std::fmt::format, stub_format))]
+#[cfg_attr(kani, kani::stub(crate::value::Parsed::from_value, crate::value::verif_c05_value::RecParsed::from_value))]
+#[cfg_attr(kani, kani::stub(<serde_json::Value as std::clone::Clone>::clone, value_clone_model))]
+#[cfg_attr(verif_replay, test)]
+pub fn c06_filter_f64() {
+    user_quant(4, 3);
+}
+
+//@ harness: c06_all_str tier=thorough timeout=900 kind=main mem=10
+//@ encodes: op::array::all, op::logic::truthy_from_evaluated, op::logic::truthy (Parsed::from_value replaced by its recording twin: literals parse to Raw, C02; Value::clone by the bounded model)
+//@ bound: collection [5] (literal), literal predicate v = String(<= 2 symbolic chars): the operator's decision equals the truthiness table
+#[cfg_attr(kani, kani::proof)]
+#[cfg_attr(kani, kani::unwind(8))]
+#[cfg_attr(kani, kani::stub(std::fmt::format, stub_format))]
+#[cfg_attr(kani, kani::stub(crate::value::Parsed::from_value, crate::value::verif_c05_value::RecParsed::from_value))]
+#[cfg_attr(kani, kani::stub(<serde_json::Value as std::clone::Clone>::clone, value_clone_model))]
+#[cfg_attr(verif_replay, test)]
+pub fn c06_all_str() {
+    user_quant(5, 0);
+}
+
+//@ harness: c06_some_str tier=quick timeout=900 kind=main mem=10
+//@ encodes: op::array::some, op::logic::truthy_from_evaluated, op::logic::truthy (Parsed::from_value replaced by its recording twin: literals parse to Raw, C02; Value::clone by the bounded model)
+//@ bound: collection [5] (literal), literal predicate v = String(<= 2 symbolic chars): the operator's decision equals the truthiness table
+#[cfg_attr(kani, kani::proof)]
+#[cfg_attr(kani, kani::unwind(8))]
+#[cfg_attr(kani, kani::stub(std::fmt::format, stub_format))]
+#[cfg_attr(kani, kani::stub(crate::value::Parsed::from_value, crate::value::verif_c05_value::RecParsed::from_value))]
+#[cfg_attr(kani, kani::stub(<serde_json::Value as std::clone::Clone>::clone, value_clone_model))]
+#[cfg_attr(verif_replay, test)]
+pub fn c06_some_str() {
+    user_quant(5, 1);
+}
+
+//@ harness: c06_none_str tier=thorough timeout=900 kind=main mem=10
+//@ encodes: op::array::none, op::logic::truthy_from_evaluated, op::logic::truthy (Parsed::from_value replaced by its recording twin: literals parse to Raw, C02; Value::clone by the bounded model)
+//@ bound: collection [5] (literal), literal predicate v = String(<= 2 symbolic chars): the operator's decision equals the truthiness table
+#[cfg_attr(kani, kani::proof)]
+#[cfg_attr(kani, kani::unwind(8))]
+#[cfg_attr(kani, kani::stub(std::fmt::format, stub_format))]
+#[cfg_attr(kani, kani::stub(crate::value::Parsed::from_value, crate::value::verif_c05_value::RecParsed::from_value))]
+#[cfg_attr(kani, kani::stub(<serde_json::Value as std::clone::Clone>::clone, value_clone_model))]
+#[cfg_attr(verif_replay, test)]
+pub fn c06_none_str() {
+    user_quant(5, 2);
+}
+
+//@ harness: c06_filter_str tier=thorough timeout=900 kind=main mem=10
+//@ encodes: op::array::filter, op::logic::truthy_from_evaluated, op::logic::truthy (Parsed::from_value replaced by its recording twin: literals parse to Raw, C02; Value::clone by the bounded model)
+//@ bound: collection [5] (literal), literal predicate v = String(<= 2 symbolic chars): the operator's decision equals the truthiness table
+#[cfg_attr(kani, kani::proof)]
+#[cfg_attr(kani, kani::unwind(8))]
+#[cfg_attr(kani, kani::stub(std::fmt::format, stub_format))]
+#[cfg_attr(kani, kani::stub(crate::value::Parsed::from_value, crate::value::verif_c05_value::RecParsed::from_value))]
+#[cfg_attr(kani, kani::stub(<serde_json::Value as std::clone::Clone>::clone, value_clone_model))]
+#[cfg_attr(verif_replay, test)]
+pub fn c06_filter_str() {
+    user_quant(5, 3);
+}
+
+//@ harness: c06_all_emptyarr tier=thorough timeout=900 kind=main mem=10
+//@ encodes: op::array::all, op::logic::truthy_from_evaluated, op::logic::truthy (Parsed::from_value replaced by its recording twin: literals parse to Raw, C02; Value::clone by the bounded model)
+//@ bound: collection [5] (literal), literal predicate v = []: the operator's decision equals the truthiness table
+#[cfg_attr(kani, kani::proof)]
+#[cfg_attr(kani, kani::unwind(8))]
+#[cfg_attr(kani, kani::stub(std::fmt::format, stub_format))]
+#[cfg_attr(kani, kani::stub(crate::value::Parsed::from_value, crate::value::verif_c05_value::RecParsed::from_value))]
+#[cfg_attr(kani, kani::stub(<serde_json::Value as std::clone::Clone>::clone, value_clone_model))]
+#[cfg_attr(verif_replay, test)]
+pub fn c06_all_emptyarr() {
+    user_quant(6, 0);
+}
+
+//@ harness: c06_some_emptyarr tier=thorough timeout=900 kind=main mem=10
+//@ encodes: op::array::some, op::logic::truthy_from_evaluated, op::logic::truthy (Parsed::from_value replaced by its recording twin: literals parse to Raw, C02; Value::clone by the bounded model)
+//@ bound: collection [5] (literal), literal predicate v = []: the operator's decision equals the truthiness table
+#[cfg_attr(kani, kani::proof)]
+#[cfg_attr(kani, kani::unwind(8))]
+#[cfg_attr(kani, kani::stub(std::fmt::format, stub_format))]
+#[cfg_attr(kani, kani::stub(crate::value::Parsed::from_value, crate::value::verif_c05_value::RecParsed::from_value))]
+#[cfg_attr(kani, kani::stub(<serde_json::Value as std::clone::Clone>::clone, value_clone_model))]
+#[cfg_attr(verif_replay, test)]
+pub fn c06_some_emptyarr() {
+    user_quant(6, 1);
+}
+
+//@ harness: c06_none_emptyarr tier=quick timeout=900 kind=main mem=10
+//@ encodes: op::array::none, op::logic::truthy_from_evaluated, op::logic::truthy (Parsed::from_value replaced by its recording twin: literals parse to Raw, C02; Value::clone by the bounded model)
+//@ bound: collection [5] (literal), literal predicate v = []: the operator's decision equals the truthiness table
+#[cfg_attr(kani, kani::proof)]
+#[cfg_attr(kani, kani::unwind(8))]
+#[cfg_attr(kani, kani::stub(std::fmt::format, stub_format))]
+#[cfg_attr(kani, kani::stub(crate::value::Parsed::from_value, crate::value::verif_c05_value::RecParsed::from_value))]
+#[cfg_attr(kani, kani::stub(<serde_json::Value as std::clone::Clone>::clone, value_clone_model))]
+#[cfg_attr(verif_replay, test)]
+pub fn c06_none_emptyarr() {
+    user_quant(6, 2);
+}
+
+//@ harness: c06_filter_emptyarr tier=thorough timeout=900 kind=main mem=10
+//@ encodes: op::array::filter, op::logic::truthy_from_evaluated, op::logic::truthy (Parsed::from_value replaced by its recording twin: literals parse to Raw, C02; Value::clone by the bounded model)
+//@ bound: collection [5] (literal), literal predicate v = []: the operator's decision equals the truthiness table
+#[cfg_attr(kani, kani::proof)]
+#[cfg_attr(kani, kani::unwind(8))]
+#[cfg_attr(kani, kani::stub(std::fmt::format, stub_format))]
+#[cfg_attr(kani, kani::stub(crate::value::Parsed::from_value, crate::value::verif_c05_value::RecParsed::from_value))]
+#[cfg_attr(kani, kani::stub(<serde_json::Value as std::clone::Clone>::clone, value_clone_model))]
+#[cfg_attr(verif_replay, test)]
+pub fn c06_filter_emptyarr() {
+    user_quant(6, 3);
+}
+
+//@ harness: c06_all_obj tier=quick timeout=900 kind=main mem=10
+//@ encodes: op::array::all, op::logic::truthy_from_evaluated, op::logic::truthy (Parsed::from_value replaced by its recording twin: literals parse to Raw, C02; Value::clone by the bounded model)
+//@ bound: collection [5] (literal), literal predicate v = {}: the operator's decision equals the truthiness table
+#[cfg_attr(kani, kani::proof)]
+#[cfg_attr(kani, kani::unwind(8))]
+#[cfg_attr(kani, kani::stub(std::fmt::format, stub_format))]
+#[cfg_attr(kani, kani::stub(crate::value::Parsed::from_value, crate::value::verif_c05_value::RecParsed::from_value))]
+#[cfg_attr(kani, kani::stub(<serde_json::Value as std::clone::Clone>::clone, value_clone_model))]
+#[cfg_attr(verif_replay, test)]
+pub fn c06_all_obj() {
+    user_quant(9, 0);
+}
+
+//@ harness: c06_some_obj tier=thorough timeout=900 kind=main mem=10
+//@ encodes: op::array::some, op::logic::truthy_from_evaluated, op::logic::truthy (Parsed::from_value replaced by its recording twin: literals parse to Raw, C02; Value::clone by the bounded model)
+//@ bound: collection [5] (literal), literal predicate v = {}: the operator's decision equals the truthiness table
+#[cfg_attr(kani, kani::proof)]
+#[cfg_attr(kani, kani::unwind(8))]
+#[cfg_attr(kani, kani::stub(std::fmt::format, stub_format))]
+#[cfg_attr(kani, kani::stub(crate::value::Parsed::from_value, crate::value::verif_c05_value::RecParsed::from_value))]
+#[cfg_attr(kani, kani::stub(<serde_json::Value as std::clone::Clone>::clone, value_clone_model))]
+#[cfg_attr(verif_replay, test)]
+pub fn c06_some_obj() {
+    user_quant(9, 1);
+}
+
+//@ harness: c06_none_obj tier=thorough timeout=900 kind=main mem=10
+//@ encodes: op::array::none, op::logic::truthy_from_evaluated, op::logic::truthy (Parsed::from_value replaced by its recording twin: literals parse to Raw, C02; Value::clone by the bounded model)
+//@ bound: collection [5] (literal), literal predicate v = {}: the operator's decision equals the truthiness table
+#[cfg_attr(kani, kani::proof)]
+#[cfg_attr(kani, kani::unwind(8))]
+#[cfg_attr(kani, kani::stub(std::fmt::format, stub_format))]
+#[cfg_attr(kani, kani::stub(crate::value::Parsed::from_value, crate::value::verif_c05_value::RecParsed::from_value))]
+#[cfg_attr(kani, kani::stub(<serde_json::Value as std::clone::Clone>::clone, value_clone_model))]
+#[cfg_attr(verif_replay, test)]
+pub fn c06_none_obj() {
+    user_quant(9, 2);
+}
+
+//@ harness: c06_filter_obj tier=quick timeout=900 kind=main mem=10
+//@ encodes: op::array::filter, op::logic::truthy_from_evaluated, op::logic::truthy (Parsed::from_value replaced by its recording twin: literals parse to Raw, C02; Value::clone by the bounded model)
+//@ bound: collection [5] (literal), literal predicate v = {}: the operator's decision equals the truthiness table
+#[cfg_attr(kani, kani::proof)]
+#[cfg_attr(kani, kani::unwind(8))]
+#[cfg_attr(kani, kani::stub(std::fmt::format, stub_format))]
+#[cfg_attr(kani, kani::stub(crate::value::Parsed::from_value, crate::value::verif_c05_value::RecParsed::from_value))]
+#[cfg_attr(kani, kani::stub(<serde_json::Value as std::clone::Clone>::clone, value_clone_model))]
+#[cfg_attr(verif_replay, test)]
+pub fn c06_filter_obj() {
+    user_quant(9, 3);
 }
 
 //@ harness: c06_wit tier=quick timeout=600 kind=witness mem=8
